@@ -30,6 +30,10 @@ func protocolMore(t *testing.T, bind *Binding, job *Job, p *sdl.Program, acc *st
 		for _, s := range sweepSpecs(p, job, SpecData{}) {
 			do(s)
 		}
+	case "C11":
+		for _, s := range sweepSpecs(p, job, SpecData{}) {
+			do(s)
+		}
 	case "C15", "C18":
 		for _, s := range sweepSpecs(p, job, SpecData{GetPaths: model.AllLeafPaths(p)}) {
 			do(s)
@@ -146,6 +150,18 @@ func nonTrivialMore(prop string, w *model.World, out *model.Outcome, o *model.Ob
 		return len(w.P.Procs) >= 2 || countKind(o, "run") >= 2 || countKind(o, "load") >= 2
 	case "C13":
 		return countKind(o, "run") >= 1
+	case "C11":
+		for _, t := range w.P.Types {
+			for _, pt := range t.Points {
+				if len(pt.Embed) != 0 {
+					return true
+				}
+			}
+			if len(t.Frame)+len(t.Custom) != 0 {
+				return true
+			}
+		}
+		return false
 	case "C14":
 		return len(o.CloseSnaps) >= 2
 	case "C15":
